@@ -82,7 +82,7 @@ def operator_start(d):
         d.history.append(['start'])
 
 
-def handover(d, cfg):
+def handover(d, cfg, bgp_id=ss.PEER_ID):
     """-> list of (sig, detail)"""
     sim = d.sim
     out = []
@@ -103,7 +103,7 @@ def handover(d, cfg):
         out.append(('nothing-pending:%s' % before_state, 'at hand-over (t=%s, state %s) no connection, attempt or timer is pending'
                     % (t0, before_state)))
     bound = cfg['idle_hold'] + max(cfg['connect_retry'], 30) + 1
-    est = ss.cooperate(sim, t0 + bound, peer_hold=PEER_HOLD)
+    est = ss.cooperate(sim, t0 + bound, peer_hold=PEER_HOLD, bgp_id=bgp_id)
     if est is None:
         out.append(('not-reestablished:from-%s:ends-%s' % (before_state, sim.state),
                     'not ESTABLISHED within %ss of the hand-over (state %s -> %s; pending at hand-over %r; now %r)'
@@ -154,7 +154,7 @@ def run_case(case):
         d.apply(pick(d.enabled(), ch))
     res = [f for f in d.failures if f[0].startswith(('escaped', 'livelock'))]
     operator_start(d)
-    res += handover(d, cfg)
+    res += handover(d, cfg, case.get('peer_id', ss.PEER_ID))
     return d, res
 
 
@@ -168,7 +168,7 @@ def run_explicit(case):
         d.apply(list(ev))
     res = [f for f in d.failures if f[0].startswith(('escaped', 'livelock'))]
     operator_start(d)
-    res += handover(d, cfg)
+    res += handover(d, cfg, case.get('peer_id', ss.PEER_ID))
     return d, res
 
 
@@ -181,11 +181,13 @@ def shards(tier):
 def run_shard(spec, seed, col, tier):
     def body(case):
         d, res = run_case(case)
-        explicit = {'cfg': case['cfg'], 'events': d.history}
+        explicit = {'cfg': case['cfg'], 'events': d.history, 'peer_id': case.get('peer_id', ss.PEER_ID)}
         col.case(explicit, nontrivial(d.history), labels=['cfg:%(hold)s/%(idle_hold)s/%(connect_retry)s' % case['cfg']])
         for sig, detail in res:
             col.fail(sig, explicit, detail)
     strat = st.fixed_dictionaries({'cfg': st.sampled_from(CONFIGS),
+                                   # the well-behaved peer may come back with another BGP identifier than the history used
+                                   'peer_id': st.sampled_from([ss.PEER_ID, ss.PEER_ID, '10.0.0.77', '192.0.2.1']),
                                    'choices': st.lists(st.integers(0, 999), min_size=0, max_size=spec['steps'])})
     hyp_run(col, strat, body, seed, spec['examples'])
 
